@@ -334,6 +334,8 @@ def finish(mod, args, parts, digests, inconclusive, t0, nsh):
                         d.setdefault(kk, vv)
             else:
                 extra.setdefault(k, v)
+    if hasattr(mod, "static_evidence"):
+        extra.update(mod.static_evidence())
     verdict = "violated" if unknown else ("inconclusive" if inconclusive else "held")
     wall = time.time() - t0
     ev = {
